@@ -338,6 +338,13 @@ func c19finish(e *c19Env, rep *simReport, name string, closedAt time.Time, baseG
 	}
 	e.cmu.Unlock()
 	// 4. no goroutine left behind
+	if e.cl.ZKHold != nil { // (ZooKeeper answers at last: whoever asked on the client's behalf must be able to finish)
+		select {
+		case <-e.cl.ZKHold:
+		default:
+			close(e.cl.ZKHold)
+		}
+	}
 	e.cancel() // (callers still blocked have been reported above; let them go)
 	e.wg.Wait()
 	time.Sleep(time.Minute)
